@@ -9,5 +9,6 @@ CONSTANTS
  FixNifty = TRUE
  AtomicAdopt = FALSE
  RefreshExpected = TRUE
+ ReleaseLast = TRUE
 INVARIANT NoShare
 CHECK_DEADLOCK FALSE
